@@ -1,0 +1,60 @@
+//go:build verif
+
+// Contracts for the deductive verifier in /verif (comment-only file; it
+// contributes no code to any build). Syntax: see /verif/DESIGN.md.
+//
+// Property C13, the streaming visit of a serialised Tree: the walk's own
+// account of where it stands (offsetBytes) is the position of the buffered
+// reader after every field, so a field that ends before its announced size is
+// never passed over silently — skipping its remainder either consumes exactly
+// the announced bytes or fails. The per-field reader handed to the visitor
+// never signals a clean end while bytes of the field are outstanding.
+package util
+
+// brPos(b): number of bytes consumed from buffered reader b (assumed contracts
+// of bufio.Reader: Peek does not consume, Discard and Read consume what they
+// report, Discard reports everything it was asked for unless it fails).
+//@ ghost brPos(ref) int
+//@ extern bufio.NewReader
+//@   modifies brPos
+//@   ensures result != nil && fresh(result) && brPos(result) == 0
+//@ extern (*bufio.Reader).Peek
+//@   modifies nothing
+//@   ensures 0 <= len(result0) && len(result0) <= n && (result1 == nil ==> len(result0) == n)
+//@ extern (*bufio.Reader).Discard
+//@   modifies brPos(self)
+//@   ensures 0 <= discarded && discarded <= n && brPos(self) == old(brPos(self)) + discarded && (err == nil ==> discarded == n)
+//@ extern (*bufio.Reader).Read
+//@   modifies brPos(self), elems(p)
+//@   ensures 0 <= n && n <= len(p) && brPos(self) == old(brPos(self)) + n
+//@ extern google.golang.org/protobuf/encoding/protowire.ConsumeTag
+//@   modifies nothing
+//@   ensures result2 <= len(b)
+//@ extern google.golang.org/protobuf/encoding/protowire.ConsumeVarint
+//@   modifies nothing
+//@   ensures result1 <= len(b)
+//@ extern google.golang.org/protobuf/encoding/protowire.ParseError
+//@   modifies nothing
+
+//@ func (*protoBytesFieldReader).Read
+//@   requires r.reader != nil && r.remainingSizeBytes >= 0
+//@   ensures [never-a-clean-end-inside-a-field] result1 == io.EOF ==> r.remainingSizeBytes == 0
+//@   ensures [what-is-delivered-is-accounted-for] 0 <= result0 && result0 <= len(p) && r.remainingSizeBytes == old(r.remainingSizeBytes) - result0
+//@         && brPos(r.reader) == old(brPos(r.reader)) + result0 && unchanged(r.reader)
+
+// The visitor reads the field only through the reader it is given: whatever it
+// consumed from the buffered reader is what the field reader counted down.
+//@ iface ProtoBytesFieldVisitor.call
+//@   modifies qAdds, brPos, fields(fieldReader)
+//@   ensures qAdds >= old(qAdds) && (forall x :: held(x) == old(held(x)))
+//@   ensures [reads-only-through-the-field-reader] fieldReader.reader == old(fieldReader.reader)
+//@         && 0 <= fieldReader.remainingSizeBytes && fieldReader.remainingSizeBytes <= old(fieldReader.remainingSizeBytes)
+//@         && brPos(fieldReader.reader) == old(brPos(fieldReader.reader)) + old(fieldReader.remainingSizeBytes) - fieldReader.remainingSizeBytes
+
+//@ func VisitProtoBytesFields
+//@   opt funcparam visitor=ProtoBytesFieldVisitor
+//@   requires r != nil && visitor != nil
+//@   modifies qAdds
+//@   ensures qAdds >= old(qAdds)
+//@   loop 0 invariant [position-is-what-the-walk-believes] br != nil && brPos(br) == offsetBytes
+//@   loop 0 invariant qAdds >= old(qAdds) && 0 <= offsetBytes && (forall x :: held(x) == old(held(x)))
